@@ -84,10 +84,14 @@ def reader_shape(ctx, rule):
 
     # enc = sign-preserving widening of B64[c as usize]
     encs = q.def_shapes(body, enc, roles)
-    ok_enc = [s for s, _, _ in encs if q.wild("from<i64>(vlq::B64[cast<usize>(*)])", s) or q.wild("cast<i64>(vlq::B64[cast<usize>(*)])", s)]
+    BYTE = "try(Iterator::next(var:Bytes))"
+    ok_enc = [s for s, _, _ in encs if s in ("from<i64>(vlq::B64[cast<usize>(%s)])" % BYTE, "cast<i64>(vlq::B64[cast<usize>(%s)])" % BYTE, "from<i64>(vlq::B64[from<usize>(%s)])" % BYTE)]
     ctx.check(len(encs) == 1 and len(ok_enc) == 1, rule, fn, "enc:table-load",
-              "the digit is loaded from the reverse table B64 at the input byte and widened sign-preservingly to i64",
+              "the digit is loaded from the reverse table B64 at the input byte (widened to usize, never narrowed) and widened sign-preservingly to i64",
               detail=str([s for s, _, _ in encs]))
+    its = [sh for l in range(len(body.locals)) for sh, _, _ in q.def_shapes(body, l, {}) if sh in ("IntoIterator::into_iter(str::bytes(arg1))", "str::bytes(arg1)")]
+    ctx.check("IntoIterator::into_iter(str::bytes(arg1))" in its, rule, fn, "enc:every-byte",
+              "the digits are the bytes of the segment, one table load per byte (a multi-byte character is a sequence of foreign bytes, not a truncated code point)", detail=str(its))
 
     # accumulator definitions
     allowed = {"0": "zero", "Shr(cur,1)": "drop-sign-bit", "Neg(cur)": "negate"}
@@ -137,6 +141,9 @@ def reader_shape(ctx, rule):
             return True
         ctx.check(every_path({shl[0][0]}), rule, fn, "checked_shl:every-digit", "every digit (zero payload included) passes the checked shift, so a 14th digit always overflows", ctx.site(body, shl[0][0]))
         ctx.check(bool(step_blocks) and every_path(set(step_blocks)), rule, fn, "shift:every-digit", "the shift advances by 5 for every digit")
+    allp = [q.shape(body.expr_of_call(t), roles) for bi, t in q.calls_to(body, "Vec::<T, A>::push")]
+    ctx.check(allp == ["Vec::push(rv,cur)"], rule, fn, "push:only-decoded-values", "the only thing ever appended to the output is the decoded accumulator (no shortcut pushes a value that did not go through the digit arithmetic)", detail=str(allp))
+    # every digit goes through the table load: the load dominates every way back to the loop head
     # continuation test: push dominated by Shr(enc,5) == 0
     pb = push[0]
     cont_ok = has_fact(body, pb, roles, ("Eq", "0", "Shr(enc,5)"), ("Eq", "0", "BitAnd(32,enc)"), ("Eq", "0", "Div(enc,32)"))
@@ -296,3 +303,29 @@ def writer_shape(ctx, rule):
         ctx.check(has_fact(body, rb, roles, ("Eq", "0", "num"), ("Le", "num", "0")), rule, fn, "exit:num==0", "the loop ends exactly when no bits remain", ctx.site(body, rb))
         ctx.check(bool(pushes) and body.dominates(pushes[0][0], rb), rule, fn, "exit:after-one-digit", "at least one digit is emitted before the loop can end (0 encodes as 'A')")
     ctx.check(body.local_ty(num) == "i64", rule, fn, "num:i64", "the writer works on 64-bit values")
+
+
+def wrappers(ctx, rule):
+    """The public entry points add nothing to the codec: parse_vlq_segment decodes into a fresh
+    vector and returns exactly that vector (or the reader's error); generate_vlq_segment appends
+    the encoding of every number, in order, to a fresh string."""
+    p = ctx.body("vlq::parse_vlq_segment")
+    vecs = [l for l in range(len(p.locals)) if p.local_ty(l).endswith("Vec<i64>") and l > p.arg_count and [sh for sh, _, _ in q.def_shapes(p, l, {})] == ["Vec::new()"]]
+    ok = len(vecs) == 1
+    if ok:
+        r = {vecs[0]: "RV"}
+        calls = [q.shape(p.expr_of_call(t), r) for bi, t in p.calls() if t.get("resolved_local")]
+        rets = sorted(sh for sh, _, _ in q.def_shapes(p, 0, r))
+        ok = calls == ["vlq::parse_vlq_segment_into(arg1,RV)"] and rets == ["FromResidual::from_residual(break(Try::branch(vlq::parse_vlq_segment_into(arg1,RV))))", "Result::Ok{0:RV}"]
+    ctx.check(ok, rule, p.path, "parse:fresh-vector", "parse_vlq_segment decodes into a vector created in this call and returns it as it is (no state survives between calls, nothing is added or dropped)",
+              detail=str([sh for sh, _, _ in q.def_shapes(p, 0, {})]))
+    g = ctx.body("vlq::generate_vlq_segment")
+    strs = [l for l in range(len(g.locals)) if g.local_ty(l).endswith("string::String") and l > g.arg_count and [sh for sh, _, _ in q.def_shapes(g, l, {})] == ["String::new()"]]
+    ok = len(strs) == 1
+    if ok:
+        r = {strs[0]: "OUT"}
+        calls = [q.shape(g.expr_of_call(t), r) for bi, t in g.calls() if t.get("resolved_local")]
+        its = [sh for l in range(len(g.locals)) for sh, _, _ in q.def_shapes(g, l, {}) if sh == "IntoIterator::into_iter(arg1)"]
+        rets = [sh for sh, _, _ in q.def_shapes(g, 0, r)]
+        ok = calls == ["vlq::encode_vlq(OUT,try(Iterator::next(var:Iter<i64>)))"] and bool(its) and rets == ["Result::Ok{0:OUT}"]
+    ctx.check(ok, rule, g.path, "generate:every-number", "generate_vlq_segment encodes every number of the slice, in order, into one fresh string")
